@@ -7,5 +7,5 @@ import (
 )
 
 func TestProp(t *testing.T) {
-	h.Run(t, h.Spec[Case]{ID: "C07", Gen: GenInProc(), Prop: Prop})
+	h.Run(t, h.Spec[Case]{ID: "C07", Gen: GenInProc(), Prop: Prop, Shrink: Shrink})
 }
